@@ -171,6 +171,10 @@ OPS = [
   ("nonnumeric_nr", "*", lambda it, info, rng: set_tab(it, "nr", rng.choice(["abc", "2.5", "1e3", "ten", ""]))),
   ("nonnumeric_cutoff", "*", lambda it, info, rng: set_tab(it, "cutoff", rng.choice(["abc", "1,5", "10 Angstrom"]))),
   ("one_row_grid", "*", lambda it, info, rng: set_tab(it, "nr", "1")),
+  ("nonfinite_cutoff", "*", lambda it, info, rng: set_tab(it, "cutoff", rng.choice(["nan", "inf", "-inf", "NaN", "Infinity"]))),
+  ("nonfinite_dr", "*", lambda it, info, rng: set_tab(set_tab(it, "cutoff", None), "dr", rng.choice(["nan", "inf"]))),
+  ("nonfinite_dr_with_cutoff", "*", lambda it, info, rng: set_tab(set_tab(it, "nr", None), "dr", rng.choice(["nan", "inf"]))),
+  ("nonfinite_cutoff_rho", "eam fs adp", lambda it, info, rng: set_tab(it, "cutoff_rho", rng.choice(["nan", "inf"]))),
   ("dr_larger_than_cutoff", "*", lambda it, info, rng: set_tab(set_tab(it, "nr", None), "dr", "50.0")),
   ("nonpositive_nrho", "eam fs adp", lambda it, info, rng: set_tab(it, "nrho", rng.choice(["0", "-3"]))),
   ("nonnumeric_cutoff_rho", "eam fs adp", lambda it, info, rng: set_tab(it, "cutoff_rho", "lots")),
@@ -189,6 +193,12 @@ OPS = [
   ("less_than_range_marker", "*", op_value("Pair", lambda k, v: v.startswith(">0 "), lambda v, rng: v.replace(">=3.0", "<3.0"))),
   ("range_marker_without_number", "*", op_value("Pair", lambda k, v: v.startswith(">0 "), lambda v, rng: v.replace(">=3.0", ">="))),
   ("empty_definition", "*", in_any_section(lambda v, rng: "")),
+  ("run_together_numerals", "*", in_any_section(lambda v, rng: (lambda t: " ".join(t[:-1] + [t[-1] + rng.choice([".5", ".25.1"]) if "." in t[-1] else t[-1] + ".5.5"]))(v.split()))),
+  ("buck4_rmin_below_detach", "*", op_value("Pair", IS_PLAIN, lambda v, rng: "as.buck4 1000.0 0.3 30.0 1.0 0.5 2.0")),
+  ("buck4_rmin_equals_detach", "*", op_value("Pair", IS_PLAIN, lambda v, rng: "as.buck4 1000.0 0.3 30.0 1.0 1.0 2.0")),
+  ("buck4_rmin_beyond_attach", "*", op_value("Pair", IS_PLAIN, lambda v, rng: "as.buck4 1000.0 0.3 30.0 1.0 2.5 2.0")),
+  ("buck4_detach_beyond_attach", "*", op_value("Pair", IS_PLAIN, lambda v, rng: "as.buck4 1000.0 0.3 30.0 2.0 1.5 1.0")),
+  ("pair_key_empty_species", "*", op_key("Pair", IS_PLAIN, lambda k, rng: rng.choice([k.split("-")[0] + "-", "-" + k.split("-")[1], "-"]))),
   ("pair_key_without_dash", "*", op_key("Pair", IS_PLAIN, lambda k, rng: k.replace("-", ""))),
   ("pair_key_two_dashes", "*", op_key("Pair", IS_PLAIN, lambda k, rng: k + "-Zr")),
   ("adp_key_without_dash", "adp", op_key("EAM-ADP-Dipole", lambda k, v: True, lambda k, rng: k.replace("-", ""))),
@@ -259,6 +269,11 @@ OPS = [
   ("form_parameter_repeated", "*", lambda it, info, rng: (lambda kv: (kv.__setitem__(0, "cf(r, A, A)"), kv.__setitem__(1, kv[1].replace("rho", "A")), it)[2])(entry(it, lambda k, v: k.startswith("cf"), "Potential-Form"))),
   ("form_named_like_parameter_of_another_form", "*", lambda it, info, rng: (bm.sec(it, "Potential-Form")[1].append(["rho(r)", "2.0*r"]), it)[1]),
   ("table_form_named_like_parameter_of_a_form", "*", lambda it, info, rng: (it.append(["Table-Form:rho", [["x", "0 1 2 3 4 10"], ["y", "1 2 3 4 5 6"]]]), it)[1]),
+  ("form_parameter_named_like_exprtk_constant", "*", lambda it, info, rng: (lambda kv, nm: (kv.__setitem__(0, "cf(r, %s, rho)" % nm), kv.__setitem__(1, re.sub(r"\bA\b", nm, kv[1])), it)[2])(entry(it, lambda k, v: k.startswith("cf"), "Potential-Form"), rng.choice(["epsilon", "pi", "inf"]))),
+  ("form_parameter_named_like_exprtk_reserved_word", "*", lambda it, info, rng: (lambda kv, nm: (kv.__setitem__(0, "cf(r, %s, rho)" % nm), kv.__setitem__(1, re.sub(r"\bA\b", nm, kv[1])), it)[2])(entry(it, lambda k, v: k.startswith("cf"), "Potential-Form"), rng.choice(["min", "max", "mod", "not", "in", "if", "_a"]))),
+  ("form_signature_trailing_junk", "*", op_key("Potential-Form", lambda k, v: k.startswith("other"), lambda k, rng: k + rng.choice(["junk", " x", ")"]))),
+  ("formula_pymath_wrong_arity", "*", op_value("Potential-Form", lambda k, v: k.startswith("other"), lambda v, rng: rng.choice(["k + pymath.log(r + 1, 2, 3)", "k + pymath.exp()", "k + pymath.pow(r)"]))),
+  ("forms_mutually_recursive", "*", lambda it, info, rng: (bm.sec(it, "Potential-Form")[1].extend([["ra(r)", "rb(r) + 1"], ["rb(r)", "ra(r) * 2"]]), bm.sec(it, "Pair")[1][-1].__setitem__(1, "ra"), it)[2]),
   ("form_label_not_identifier", "*", op_key("Potential-Form", lambda k, v: k.startswith("other"), lambda k, rng: "2other(r, k)")),
   ("formula_undefined_variable", "*", op_value("Potential-Form", lambda k, v: k.startswith("cf"), lambda v, rng: v.replace("rho", "sigma", 1))),
   ("formula_undefined_function", "*", op_value("Potential-Form", lambda k, v: k.startswith("cf"), lambda v, rng: v.replace("other(", "another("))),
